@@ -164,3 +164,126 @@ Proof.
       specialize (Hnw r0 _ Hc0). unfold not_worse, comparer_result in Hnw. cbn [m_score m_errors sm mscore merrors] in Hnw. lia.
     + specialize (Hspec r0). rewrite Hc0 in Hspec. discriminate.
 Qed.
+
+(** ---- anchored 3' adapters: the comparer works on the reversed strings *)
+Lemma hamming_app : forall (t1 s1 t2 s2 : str), length t1 = length s1 -> hamming (t1 ++ t2) (s1 ++ s2) = hamming t1 s1 + hamming t2 s2.
+Proof.
+  induction t1 as [|a t1 IH]; intros s1 t2 s2 Hl; destruct s1 as [|b s1]; try discriminate; [reflexivity|].
+  cbn [app hamming]. rewrite IH by (cbn in Hl; lia). lia.
+Qed.
+
+Lemma hamming_rev : forall (t s : str), length t = length s -> hamming (rev t) (rev s) = hamming t s.
+Proof.
+  induction t as [|a t IH]; intros s Hl; destruct s as [|b s]; try discriminate; [reflexivity|].
+  cbn [rev]. rewrite hamming_app by (rewrite !rev_length; cbn in Hl; lia). rewrite IH by (cbn in Hl; lia). cbn [hamming]. lia.
+Qed.
+
+Lemma pyslice_last {A} (u : list A) L : 1 <= L <= zlen u -> pyslice (Some (- L)) None u = skipn (length u - Z.to_nat L) u.
+Proof.
+  intros HL. unfold pyslice, norm_idx. assert (E : (- L <? 0) = true) by (apply Z.ltb_lt; lia). rewrite E.
+  rewrite Z.min_r, Z.max_r by lia. rewrite firstn_all2 by (rewrite skipn_length; unfold zlen in *; lia).
+  f_equal. unfold zlen in *. lia.
+Qed.
+
+Lemma firstn_rev {A} (u : list A) k : (k <= length u)%nat -> firstn k (rev u) = rev (skipn (length u - k) u).
+Proof.
+  intros Hk. rewrite <- (firstn_skipn (length u - k) u) at 1. rewrite rev_app_distr.
+  rewrite firstn_app, rev_length, skipn_length. replace (k - (length u - (length u - k)))%nat with 0%nat by lia.
+  cbn [firstn]. rewrite app_nil_r. apply firstn_all2. rewrite rev_length, skipn_length. lia.
+Qed.
+
+Definition suffix_iad (L : Z) (a : iad) : Prop :=
+  a_type (ia_ad a) = Suffix /\ a_indels (ia_ad a) = false /\ a_wref (ia_ad a) = false /\ a_wq (ia_ad a) = false /\
+  zlen (a_seq (ia_ad a)) = L /\ a_min_overlap (ia_ad a) = L /\ map (tr upper_table) (a_seq (ia_ad a)) = a_seq (ia_ad a) /\
+  ia_k a = thr_of (ia_thr a) L.
+
+Definition suffix_result (L n h : Z) : smatch := mkSM (mkM 0 L (n - L) n (L - 2 * h) h 1) n.
+
+Lemma suffix_single_match L a s :
+  suffix_iad L a -> L <= zlen s -> 1 <= L ->
+  let affix := make_affix false (map (tr upper_table) s) L in
+  let h := hamming (a_seq (ia_ad a)) affix in
+  single_match (ia_ad a) (ia_thr a) s = if h <=? ia_k a then Some (suffix_result L (zlen s) h) else None.
+Proof.
+  intros (Ht & Hi & Hwr & Hwq & Hl & Hov & Hup & Hk) Hs HL. cbv zeta.
+  unfold single_match. rewrite comparer_no_prefilter by (unfold uses_comparer; rewrite Ht, Hi; reflexivity).
+  unfold match_to, raw_locate. rewrite Ht, Hi, Hwr, Hwq, Hov.
+  unfold suffix_locate, prefix_locate. cbn [orb].
+  rewrite map_rev, Hup.
+  set (u := map (tr upper_table) s).
+  assert (Hul : length u = length s) by (subst u; apply map_length).
+  assert (Haff : make_affix false u L = skipn (length u - length (a_seq (ia_ad a))) u).
+  { unfold make_affix. rewrite pyslice_last by (unfold zlen in *; lia). f_equal. unfold zlen in *. lia. }
+  rewrite Haff. rewrite map_rev. fold u.
+  rewrite (mismatches_hamming (rev (a_seq (ia_ad a))) (rev u)) by (rewrite !rev_length; unfold zlen in *; lia).
+  rewrite rev_length.
+  assert (Hfr : firstn (length (a_seq (ia_ad a))) (rev u) = rev (skipn (length u - length (a_seq (ia_ad a))) u)).
+  { apply firstn_rev. unfold zlen in *. lia. }
+  rewrite Hfr, hamming_rev by (rewrite skipn_length; unfold zlen in *; lia).
+  set (h := hamming _ _). unfold comparer_eff_len. rewrite !zlen_rev, Hl, Z.min_l by lia. rewrite Hk.
+  assert (E2 : (L <? L) = false) by (apply Z.ltb_irrefl). rewrite E2, orb_false_r.
+  destruct (h <=? thr_of (ia_thr a) L) eqn:E.
+  - apply Z.leb_le in E. assert (E1 : (thr_of (ia_thr a) L <? h) = false) by (apply Z.ltb_ge; lia). rewrite E1.
+    unfold suffix_result, class_side, cls_SuffixAdapter_side, MATCH_SCORE, MISMATCH_SCORE. cbn [Z.eqb]. do 3 f_equal; lia.
+  - apply Z.leb_gt in E. assert (E1 : (thr_of (ia_thr a) L <? h) = true) by (apply Z.ltb_lt; lia). rewrite E1. reflexivity.
+Qed.
+
+Lemma entry_for_hamming' L a affix :
+  a_indels (ia_ad a) = false -> zlen (a_seq (ia_ad a)) = L -> zlen affix = L -> Forall (fun c => is_acgt c = true) affix ->
+  let h := hamming (a_seq (ia_ad a)) affix in
+  entry_for a affix = if h <=? ia_k a then Some (h, L - h) else None.
+Proof.
+  intros Hi Hl Hal Hacgt. cbv zeta. unfold entry_for. rewrite Hi. unfold ham_entry.
+  rewrite ham_go_total by (unfold zlen in *; try lia; assumption). rewrite Hl. cbn [Z.add]. reflexivity.
+Qed.
+
+Theorem index_agrees_with_one_by_one_suffix L ads s r0 a0 :
+  1 <= L -> Forall (suffix_iad L) ads -> L <= zlen s ->
+  let affix := make_affix false (map (tr upper_table) s) L in
+  Forall (fun c => is_acgt c = true) affix ->
+  nth_error ads r0 = Some a0 ->
+  let h0 := hamming (a_seq (ia_ad a0)) affix in
+  h0 <= ia_k a0 ->
+  (forall j b, j <> r0 -> nth_error ads j = Some b -> hamming (a_seq (ia_ad b)) affix <= ia_k b -> h0 < hamming (a_seq (ia_ad b)) affix) ->
+  index_match false ads s = Some (r0, zlen s - L, zlen s, h0, L - h0) /\
+  best_match (map to_p ads) s = Some (MSingle r0 (suffix_result L (zlen s) h0)).
+Proof.
+  intros HL Hall Hs affix Hacgt Hn h0 Hh0 Huniq.
+  assert (Hal : zlen affix = L).
+  { subst affix. unfold make_affix. rewrite pyslice_last by (rewrite zlen_map; lia). unfold zlen. rewrite skipn_length, map_length. unfold zlen in Hs. lia. }
+  assert (Hnn : has_n affix = false).
+  { unfold has_n. apply not_true_is_false. intros Hex. apply existsb_exists in Hex. destruct Hex as (c & Hc & Ec).
+    rewrite Forall_forall in Hacgt. specialize (Hacgt c Hc). apply Z.eqb_eq in Ec. subst c. discriminate. }
+  assert (Hp : forall j b, nth_error ads j = Some b -> suffix_iad L b).
+  { intros j b Hj. rewrite Forall_forall in Hall. apply Hall. eapply nth_error_In; eauto. }
+  assert (Hpi : forall j b, nth_error ads j = Some b -> a_indels (ia_ad b) = false /\ zlen (a_seq (ia_ad b)) = L).
+  { intros j b Hj. destruct (Hp j b Hj) as (_ & Hi & _ & _ & Hl & _). split; assumption. }
+  split.
+  - assert (Heq : equal_noindel L ads).
+    { unfold equal_noindel. eapply Forall_impl; [|exact Hall]. intros a (_ & Hi & _ & _ & Hl & _). split; assumption. }
+    pose proof (index_equal_length false L ads s r0 a0 h0 (L - h0) Heq Hn) as Hidx. cbv zeta in Hidx. fold affix in Hidx.
+    unfold make_match in Hidx. apply Hidx; [exact Hnn| |].
+    + destruct (Hpi _ _ Hn) as [Hi Hl]. rewrite (entry_for_hamming' L a0 affix Hi Hl Hal Hacgt). fold h0. apply Z.leb_le in Hh0. rewrite Hh0. reflexivity.
+    + intros j b Hj Hb. unfold beaten. destruct (Hpi _ _ Hb) as [Hi Hl]. rewrite (entry_for_hamming' L b affix Hi Hl Hal Hacgt).
+      destruct (hamming (a_seq (ia_ad b)) affix <=? ia_k b) eqn:E; [|exact I]. apply Z.leb_le in E. specialize (Huniq j b Hj Hb E). lia.
+  - assert (Hcand : forall j, cand (map to_p ads) s j =
+              match nth_error ads j with
+              | Some b => let h := hamming (a_seq (ia_ad b)) affix in
+                          if h <=? ia_k b then Some (MSingle j (suffix_result L (zlen s) h)) else None
+              | None => None
+              end).
+    { intros j. unfold cand. rewrite nth_error_map. destruct (nth_error ads j) as [b|] eqn:Ej; [|reflexivity]. cbn [option_map to_p adapter_match].
+      rewrite (suffix_single_match L b s (Hp _ _ Ej) Hs HL). fold affix. cbv zeta.
+      destruct (hamming (a_seq (ia_ad b)) affix <=? ia_k b); reflexivity. }
+    pose proof (best_match_spec (map to_p ads) s) as Hspec.
+    assert (Hc0 : cand (map to_p ads) s r0 = Some (MSingle r0 (suffix_result L (zlen s) h0))).
+    { rewrite Hcand, Hn. cbv zeta. fold h0. apply Z.leb_le in Hh0. rewrite Hh0. reflexivity. }
+    destruct (best_match (map to_p ads) s) as [b|].
+    + destruct Hspec as (ib & Hib & Hnw & _).
+      destruct (Nat.eq_dec ib r0) as [->|Hne]; [rewrite Hc0 in Hib; exact (eq_sym Hib)|]. exfalso.
+      rewrite Hcand in Hib. destruct (nth_error ads ib) as [bb|] eqn:Eib; [|discriminate]. cbv zeta in Hib.
+      destruct (hamming (a_seq (ia_ad bb)) affix <=? ia_k bb) eqn:E; [|discriminate]. apply Z.leb_le in E.
+      injection Hib as <-. specialize (Huniq ib bb Hne Eib E).
+      specialize (Hnw r0 _ Hc0). unfold not_worse, suffix_result in Hnw. cbn [m_score m_errors sm mscore merrors] in Hnw. lia.
+    + specialize (Hspec r0). rewrite Hc0 in Hspec. discriminate.
+Qed.
